@@ -27,7 +27,9 @@ func ReexecInNetns() string {
 	if err != nil {
 		return "host"
 	}
-	cmd := exec.Command("unshare", append([]string{"-n", "--", self}, os.Args[1:]...)...)
+	// loopback up (fake docker / apiserver endpoints of other helpers listen on 127.0.0.1), then the harness itself
+	cmd := exec.Command("unshare", append([]string{"-n", "--", "sh", "-c",
+		`ip link set lo up 2>/dev/null; exec "$0" "$@"`, self}, os.Args[1:]...)...)
 	cmd.Env = append(os.Environ(), netnsEnv+"=private")
 	if !strings.Contains(os.Getenv("PATH"), "/usr/sbin") {
 		cmd.Env = append(cmd.Env, "PATH="+os.Getenv("PATH")+":/usr/sbin:/sbin")
